@@ -9,6 +9,14 @@ ASSUME = ("Trusted base: the Go toolchain (go1.23.5) as semantics oracle; the ve
 
 # id -> (engine, technique, level text, level note)   (only claimed properties)
 CHECKS = {
+ "C08": ("E2 seq-model",
+         "runtime differential monitor: real seq terms driven through the public API vs a big-step reference interpreter; bounded-exhaustive term enumeration + PRNG terms + metamorphic Combine laws",
+         "Exploration: all well-formed combinator terms up to 5 nodes (6 thorough) exhaustively plus 60k (1.5M) PRNG terms up to 30 nodes; the full interleaved event list (consumer call/return markers, thunk/cond/post evaluations, yields, final result) must equal the reference interpreter's, which decides every truncation point; associativity and unit laws on PRNG triples.",
+         ASSUME + "The ~60-line reference interpreter (probes/seqmodel) is the specification; only well-formed terms (Break/Continue under a loop) are generated."),
+ "C09": ("E2 seq-model",
+         "runtime monitor of call histories: exhaustive histories over {MoveNext, Current, Send, Result} vs a 3-state protocol model, return values + generator-side effect log",
+         "Exploration: every history of length <= 6 (8 thorough) over 5 operations x 24 generators (0..3 yields, Bind/BindRecv mixes, three ways to end, two infinite echo loops), exhaustively; every call's return value and the cumulative effect log are compared with the model.",
+         ASSUME + "The protocol model is written from the property text; Result is compared only after completion."),
  "C10": ("E3 iter-vs-native",
          "runtime differential monitor: seq.New*Iter driven with the compiler's protocol vs Go's native range in the same process, bounded-exhaustive inputs + mutation scripts",
          "Exploration: every byte string up to length 5 (6 thorough) over a 10-byte alphabet with ASCII / multi-byte / invalid sequences, all small slices x mutation scripts, all small maps x delete/insert/update scripts, typed maps with nil interface keys/values and NaN, channels with nil elements, ints -3..64; the oracle is the native range statement executed on the same value.",
